@@ -76,6 +76,57 @@ func likeViaConstructorK(pat, str, kind string) (res string, err error) {
 	return "false", nil
 }
 
+type wrappedLike struct{ name, res string }
+
+// likeWrapped builds the like statement inside each connective / quantifier with the Go constructors and evaluates it
+// so that the whole statement is true exactly when the like is.
+func likeWrapped(pat, str string) []wrappedLike {
+	like := func() policy.Constructor { return policy.Like(".", pat) }
+	one := basicnode.NewInt(1)
+	str1 := valueOfKind("string", str)
+	lst, _ := qp.BuildList(basicnode.Prototype.Any, 1, func(la datamodel.ListAssembler) { qp.ListEntry(la, qp.Node(str1)) })
+	ws := []struct {
+		name string
+		c    policy.Constructor
+		data ipld.Node
+	}{
+		{"not(not(.))", policy.Not(policy.Not(like())), str1},
+		{"and(.)", policy.And(like()), str1},
+		{"or(.)", policy.Or(like()), str1},
+		{"and(or(.), not(== 1))", policy.And(policy.Or(like()), policy.Not(policy.Equal(".", one))), str1},
+		{"all(.)", policy.All(".", like()), lst},
+		{"any(.)", policy.Any(".", like()), lst},
+		{"any(not(not(.)))", policy.Any(".", policy.Not(policy.Not(like()))), lst},
+		{"all(any(.)) over [[s]]", policy.All(".", policy.Any(".", like())), func() ipld.Node {
+			n, _ := qp.BuildList(basicnode.Prototype.Any, 1, func(la datamodel.ListAssembler) { qp.ListEntry(la, qp.Node(lst)) })
+			return n
+		}()},
+	}
+	var out []wrappedLike
+	for _, w := range ws {
+		r := wrappedLike{name: w.name}
+		func() {
+			defer func() {
+				if x := recover(); x != nil {
+					r.res = fmt.Sprintf("panic: %v", x)
+				}
+			}()
+			pol, err := policy.Construct(w.c)
+			if err != nil {
+				r.res = "reject"
+				return
+			}
+			if ok, _ := pol.Match(w.data); ok {
+				r.res = "true"
+			} else {
+				r.res = "false"
+			}
+		}()
+		out = append(out, r)
+	}
+	return out
+}
+
 // likeViaIPLDK evaluates `like` through the wire form [["like", ".", pat]].
 func likeViaIPLDK(pat, str, kind string) (res string, err error) {
 	defer func() {
@@ -143,6 +194,15 @@ func init() {
 			}
 			if a2 != c.Expect {
 				rep.violation(c, c.Expect, a2, fmt.Sprintf("policy.FromIPLD like %q on %q", pat, str))
+			}
+			// the same pattern under every constructor that can wrap a like: an invalid pattern is refused wherever it
+			// stands, a valid one means the same
+			for _, wv := range likeWrapped(pat, str) {
+				if wv.res != c.Expect {
+					rep.violation(map[string]any{"pat": c.Pat, "str": c.Str, "wrapped_in": wv.name}, c.Expect, wv.res,
+						fmt.Sprintf("policy.Like(%q) wrapped in %s on %q", pat, wv.name, str))
+					break
+				}
 			}
 			// the same content as a value of another kind is not a string in the language
 			if c.Expect == "true" {
